@@ -18,6 +18,8 @@ F = [
  ("1373211", ["C16"], "checker reported InvalidUnboundedAccount on a bounded overdraft source under send [A *]"),
  ("f3f4d4f", ["C17"], "checker did not type operands/result of + and -: clean check, TypeError at run time (e.g. source = @a + 1)"),
  ("245667e", ["C18"], "analysis.CheckSource nil-dereferenced on `vars { number = balance(@a, USD) }` (declaration without a name)"),
+ ("2466e4f", ["C17","C16"], "self-referencing origin `account $a = meta($a, \"k\")` checked clean but failed at run time with an unbound variable (reported by a seeding sub-agent, reproduced by C17's origin-self-reference edit)"),
+ ("e6ff71c", ["C02","C06"], "allotment with `remaining` and other portions above one produced a negative posting (world->c -3) (reported by a seeding sub-agent, reproduced by C02's oversum stratum)"),
 ]
 out = {"_comment": "Read-only at run time. status=fixed entries are informational and suppress nothing; a status=known entry would match a violation by property + signature (+ optional input substring). No known (unrepaired) finding exists at present.", "findings": []}
 lines = []
